@@ -43,6 +43,13 @@ func c09Gen(seed int64, idx int) c09Spec {
 	sp.Topology = []string{"keep", "keep", "move_master", "two_masters", "no_master"}[r.Intn(5)]
 	sp.FailMW = sp.Leave && sp.Topology == "move_master" && r.Intn(2) == 0
 	sp.EnterRace = []string{"none", "none", "switch_pending", "master_dead"}[r.Intn(4)]
+	if sp.Mode == "light" && idx%8 == 7 {
+		// an automatic failover was started and its attempt failed before the operator asks for light maintenance
+		sp.EnterRace, sp.Events, sp.Leave, sp.FailMW = "failover_started_and_failing", nil, false, false
+		if sp.N < 3 {
+			sp.N = 3
+		}
+	}
 	return sp
 }
 
@@ -72,6 +79,7 @@ type c09Monitor struct {
 	Deleted     bool
 	deletedBy   string
 	lightStart  int
+	swStartedAt time.Time // started_at of the request in the switch key as last written
 	Repairs     int
 }
 
@@ -113,15 +121,23 @@ func newC09Monitor(sc *Scen, mode string) *c09Monitor {
 				m.sc.Violate("C09", "coordination-write-during-full-maintenance:"+p, fmt.Sprintf("%s wrote %s (%s %s) while full maintenance is acknowledged", r.Client, p, r.Op, r.Data))
 			}
 		case "switch":
-			if m.lightAcked && daemon && (r.Op == "create" || r.Op == "set") {
+			if r.Op == "create" || r.Op == "set" {
 				var rec swRec
-				if json.Unmarshal([]byte(r.Data), &rec) == nil && rec.Transition == "failover" {
+				if json.Unmarshal([]byte(r.Data), &rec) != nil {
+					return
+				}
+				prevStart := m.swStartedAt
+				m.swStartedAt = rec.StartedAt
+				if m.lightAcked && daemon && rec.Transition == "failover" {
 					if r.Op == "create" {
 						m.sc.Violate("C09", "failover-filed-under-light-maintenance", fmt.Sprintf("%s filed a failover request while light maintenance is acknowledged: %s", r.Client, r.Data))
-					} else if rec.StartedBy != "" && rec.Result == nil {
+					} else if rec.StartedBy != "" && (rec.Result == nil || !rec.StartedAt.Equal(prevStart)) {
+						// a first start, or a retry of a request whose earlier attempt failed (the old result stays in the record)
 						m.sc.Violate("C09", "failover-started-under-light-maintenance", fmt.Sprintf("%s started a failover-type request while light maintenance is acknowledged: %s", r.Client, r.Data))
 					}
 				}
+			} else if r.Op == "delete" {
+				m.swStartedAt = time.Time{}
 			}
 		}
 	})
@@ -256,6 +272,42 @@ func c09Run(u *Unit) {
 				s.W.Crash(master)
 				time.Sleep(time.Second)
 			}
+		case "failover_started_and_failing":
+			var failing atomic.Bool
+			failing.Store(true)
+			s.W.Lock()
+			s.W.Fault = func(c *world.StmtCtx) world.FaultAction {
+				if failing.Load() && c.Host != master && (c.Class == "set_writable" || c.Class == "reset_replica") {
+					return world.FaultAction{Kind: "fail", Errno: 1205}
+				}
+				return world.FaultAction{}
+			}
+			s.W.Unlock()
+			s.W.Crash(master)
+			failed := s.WaitUntil(90*time.Second, 500*time.Millisecond, func() bool {
+				v, ok := s.Cached("switch")
+				return ok && strings.Contains(v, `"master_transition":"failover"`) && !strings.Contains(v, `"run_count":0`) && strings.Contains(v, `"run_count"`)
+			})
+			if !failed {
+				sc.Inconclusive("the automatic failover did not fail its first attempt within 90 s")
+				return
+			}
+			sc.Cover("failover-attempt-failed-before-light-maintenance")
+			s.ZK.CreateIfAbsent("operator", NS+"/maintenance", fmt.Sprintf(`{"initiated_by":"op","initiated_at":%q,"mysync_paused":false,"should_leave":false,"mode":"light"}`, time.Now().Format(time.RFC3339Nano)))
+			if !s.WaitUntil(40*time.Second, time.Second, func() bool { v, _ := s.Cached("maintenance"); return strings.Contains(v, `"mysync_paused":true`) }) {
+				sc.Cover("not-acknowledged")
+				return
+			}
+			sc.Cover("acknowledged:light")
+			time.Sleep(8 * time.Second)
+			failing.Store(false) // from here on an attempt would go through
+			time.Sleep(40 * time.Second)
+			if v, ok := s.Cached("switch"); ok && strings.Contains(v, `"master_transition":"failover"`) {
+				sc.Cover("started-failover-parked-by-light-maintenance")
+			}
+			sc.Coverf("mode=light|race=%s|n=%d|dss=%v", sp.EnterRace, sp.N, sp.DisableSS)
+			sc.Obs("light maintenance entered after a failed attempt of an automatic failover: request now %v, master %q, active %v", func() string { v, _ := s.Cached("switch"); return v }(), s.Master(), s.ActiveNodes())
+			return
 		}
 		s.ZK.CreateIfAbsent("operator", NS+"/maintenance", fmt.Sprintf(`{"initiated_by":"op","initiated_at":%q,"mysync_paused":false,"should_leave":false,"mode":%q}`, time.Now().Format(time.RFC3339Nano), sp.Mode))
 		ackd := s.WaitUntil(40*time.Second, time.Second, func() bool {
@@ -440,7 +492,7 @@ func init() {
 	register(&Prop{ID: "C09", Units: func(tier string) int { return tierN(tier, 240, 6000) }, Run: c09Run,
 		Floor: func(string) []string {
 			return []string{"acknowledged:full", "acknowledged:light", "restart-in-maintenance", "outage-in-maintenance", "restart-during-outage", "left-with-one-master", "kept-with-0-masters", "kept-with-2-masters",
-				"failover-request-parked", "repair-under-light-maintenance", "master-dead-under-light-maintenance"}
+				"failover-request-parked", "repair-under-light-maintenance", "master-dead-under-light-maintenance", "started-failover-parked-by-light-maintenance"}
 		},
-		Rule: "scenario = maintenance mode (full / light) x semi-sync-off-on-entry switch x entry race (pending switch, dead master) x 1-3 events during maintenance (daemon restarts with and without marker file, all daemons, restarts during a coordination outage, cuts and outages, server crashes, filed switch requests, stopped replication) x operator topology edit (keep, move the master, two masters, no master) x leave; oracle A judges every effective change of a server variable or replication setting by a daemon (ground-truth fingerprint before/after each statement) and every write of master/active_nodes while full maintenance is acknowledged, exempting the lock holder's leave procedure; oracle B watches failover-type requests under light maintenance; oracle C judges the deletion of the key on ground truth; distinct by the cover tuple"})
+		Rule: "scenario = maintenance mode (full / light) x semi-sync-off-on-entry switch x entry race (pending switch, dead master, an automatic failover whose first attempt failed) x 1-3 events during maintenance (daemon restarts with and without marker file, all daemons, restarts during a coordination outage, cuts and outages, server crashes, filed switch requests, stopped replication) x operator topology edit (keep, move the master, two masters, no master) x leave; oracle A judges every effective change of a server variable or replication setting by a daemon (ground-truth fingerprint before/after each statement) and every write of master/active_nodes while full maintenance is acknowledged, exempting the lock holder's leave procedure; oracle B watches failover-type requests under light maintenance; oracle C judges the deletion of the key on ground truth; distinct by the cover tuple"})
 }
